@@ -76,6 +76,17 @@ CONC = [
 ]
 
 
+# script goroutines that evaluate function literals of many shapes at the same time (the interpreter builds their Go types on first use)
+def _shapes(lo, hi):
+    lits = []
+    for n in range(lo, hi):
+        ps = ", ".join("a%d" % j for j in range(n))
+        lits.append("  f = func(%s%s) { return %d }" % (ps, ", r..." if n % 2 else "", n))
+    body = "\n".join(lits)
+    return "done = make(chan int64)\nfor k = 0; k < 4; k++ {\n go func() {\n%s\n  done <- 1\n }()\n}\nfor k = 0; k < 4; k++ {\n <-done\n}\n1" % body
+CONC += [_shapes(5 + 12 * k, 17 + 12 * k) for k in range(8)]
+
+
 def cases(ctx, rend):
     rng = random.Random(ctx.seed)
     out = [{"id": "deg|%d" % i, "src": s} for i, s in enumerate(DEGENERATE)]
